@@ -271,3 +271,86 @@ func compareGEPExpr(e *constant.ExprGetElementPtr, want types.Type, where string
 		add(where, "ir.NewGetElementPtr computes %s, reference %s", t2, want)
 	}
 }
+
+// SelfConsistent checks a parsed module without a reference model: for every value-producing
+// instruction and terminator the type the parser attached must equal the type the IR library computes
+// by itself from the same operands (cache cleared), every getelementptr must get the same type from the
+// instruction constructor, and every constant expression's cached type must equal its recomputation.
+// The parser's types themselves are validated by LLVM when the printed module is accepted and read
+// back identically (the caller's gate).
+func SelfConsistent(pm *ir.Module, onlyGEP bool) (fs []Finding, st Stats) {
+	st.Kinds = map[string]int{}
+	add := func(where, format string, args ...any) {
+		if len(fs) < 6 {
+			fs = append(fs, Finding{where, fmt.Sprintf(format, args...)})
+		}
+	}
+	for _, pf := range pm.Funcs {
+		for bi, pb := range pf.Blocks {
+			var all []any
+			for _, in := range pb.Insts {
+				all = append(all, in)
+			}
+			all = append(all, pb.Term)
+			for ii, px := range all {
+				_, isGEP := px.(*ir.InstGetElementPtr)
+				if onlyGEP && !isGEP {
+					continue
+				}
+				tv, isVal := px.(interface{ Type() types.Type })
+				if !isVal {
+					continue
+				}
+				kind := fmt.Sprintf("%T", px)
+				where := fmt.Sprintf("%s block %d inst %d (%s)", pf.Ident(), bi, ii, kind)
+				got, p := typeOf(tv)
+				if p != nil {
+					add(where, "Type() panics: %v", p.Val)
+					continue
+				}
+				st.Insts++
+				st.Kinds[kind]++
+				re, had, p2 := recompute(px)
+				if had {
+					st.Recomputed++
+					if p2 != nil {
+						add(where, "recomputing the type from the operands panics: %v", p2.Val)
+					} else if !types.Equal(re, got) || re.String() != got.String() {
+						add(where, "the IR library computes type %s from the operands, the parser attached %s", re, got)
+					}
+				}
+				if isGEP {
+					compareGEPInst(px, got, where, add)
+				}
+			}
+		}
+	}
+	walk.Walk(pm, func(v reflect.Value, path string) bool {
+		if v.Kind() != reflect.Ptr || v.IsNil() || !v.CanInterface() {
+			return true
+		}
+		e, ok := v.Interface().(constant.Expression)
+		if !ok {
+			return true
+		}
+		ge, isGEP := e.(*constant.ExprGetElementPtr)
+		if onlyGEP && !isGEP {
+			return true
+		}
+		st.Exprs++
+		cached, p := typeOf(e)
+		re, had, p2 := recompute(e)
+		if p != nil || p2 != nil {
+			add(path, "constant expression %T: Type() panics (cached %v, recomputed %v)", e, p, p2)
+			return true
+		}
+		if had && (!types.Equal(cached, re) || cached.String() != re.String()) {
+			add(path, "constant expression %T: the parser attached type %s, the IR library computes %s", e, cached, re)
+		}
+		if isGEP {
+			compareGEPExpr(ge, cached, path, add)
+		}
+		return true
+	})
+	return
+}
